@@ -113,7 +113,9 @@ func pstrClassify(op, callee, fn string) int {
 	case "recv":
 		return 20
 	case "select":
-		if !strings.Contains(fn, "SubscribeContext") {
+		// the select of checkBroken is a no-op; every other select of the file belongs to SubscribeContext's iterator, whatever the
+		// function it sits in is called (the iterator body may be a closure of SubscribeContext or a method of its own)
+		if strings.HasSuffix(fn, "checkBroken") {
 			return 23
 		}
 		return 25
